@@ -10,7 +10,8 @@ Definition verdict := (bool * bool * bool * list N)%type.
 Record report := mkReport {
   r_total : N;
   r_mismatch : list N;          (* model and implementation disagree *)
-  r_fail : list N;              (* in domain, property fails on the observed output, no known class *)
+  r_fail : list N;              (* in domain, property fails on the observed output, and either no known class
+                                   or the output is not the one the model of the known defect predicts *)
   r_known : list (N * N);       (* in domain, property fails, inside a known class: (case, class) *)
   r_in_domain : N;
   r_known_clean : N }.          (* in domain, inside a known class, but the property holds *)
@@ -23,8 +24,11 @@ Fixpoint run_go {A} (v : A -> verdict) (i : N) (cs : list A) (acc : report) : re
       let '(ag, dom, holds, known) := v c in
       let mm := if ag then r_mismatch acc else i :: r_mismatch acc in
       let bad := dom && negb holds in
-      let fl := if bad then match known with [] => i :: r_fail acc | _ => r_fail acc end else r_fail acc in
-      let kn := if bad then map (fun k => (i, k)) known ++ r_known acc else r_known acc in
+      (* a known class excuses a failure only when the implementation behaves exactly as the model of the
+         known defect predicts ([ag]); a failing case that also disagrees with the model is a different violation *)
+      let excused := match known with [] => false | _ => ag end in
+      let fl := if bad && negb excused then i :: r_fail acc else r_fail acc in
+      let kn := if bad && excused then map (fun k => (i, k)) known ++ r_known acc else r_known acc in
       let kc := if dom && holds then match known with [] => r_known_clean acc | _ => r_known_clean acc + 1 end
                 else r_known_clean acc in
       run_go v (i + 1) cs' (mkReport (r_total acc + 1) mm fl kn (if dom then r_in_domain acc + 1 else r_in_domain acc) kc)
